@@ -64,6 +64,8 @@ const (
 	Commit      = "commit"
 	AfterCommit = "aftercommit"
 	OnRollback  = "onrollback"
+	// ReadOp is a Read / ReadShelf call; numbered only after NumberReads(true).
+	ReadOp = "read"
 )
 
 // Mode of a planned fault.
@@ -104,6 +106,14 @@ func (s Step) Label() string {
 		return s.Kind + " " + s.Shelf
 	case AfterCommit, OnRollback:
 		return s.Kind + "#" + strconv.Itoa(s.Idx)
+	case ReadOp:
+		if s.Shelf != "" {
+			return s.Kind + " " + s.Shelf
+		}
+	case Begin:
+		if s.Shelf != "" {
+			return s.Kind + " " + s.Shelf
+		}
 	}
 	return s.Kind
 }
@@ -150,6 +160,7 @@ type KV struct {
 
 	virtual bool
 	vlock   vsync.RWMutex
+	reads   bool
 
 	// Hook, when set, is called before every numbered step takes effect (after numbering, before a planned
 	// fault is applied), on the goroutine that performs the step. Set it before use; not synchronised.
@@ -168,6 +179,27 @@ func (k *KV) Inner() stoabs.KVStore { return k.inner }
 
 // VirtualLock switches the scheduler-visible RW lock in front of Read and Write on or off.
 func (k *KV) VirtualLock(on bool) { k.virtual = on }
+
+// NumberReads makes every Read / ReadShelf call a numbered step of kind ReadOp (Shelf = the shelf of ReadShelf, "" for
+// Read), so that it can be made to fail (the call returns a database error, the function is not run) or be a stop
+// point. Off by default: the numbering of harnesses that enumerate write steps only is not affected.
+func (k *KV) NumberReads(on bool) { k.mu.Lock(); k.reads = on; k.mu.Unlock() }
+
+func (k *KV) numbersReads() bool { k.mu.Lock(); defer k.mu.Unlock(); return k.reads }
+
+// readStep numbers a read call; a non-nil error ends the call.
+func (k *KV) readStep(shelf string) error {
+	if !k.numbersReads() {
+		return nil
+	}
+	switch v, s := k.step(ReadOp, shelf, 0, 0); v {
+	case failStep:
+		return injected(s)
+	case stopHere, alreadyDead:
+		return k.die()
+	}
+	return nil
+}
 
 // KeepTrace switches recording of the step trace (on by default; numbering is not affected).
 func (k *KV) KeepTrace(on bool) { k.mu.Lock(); k.keep = on; k.mu.Unlock() }
@@ -418,6 +450,9 @@ func (k *KV) Read(ctx context.Context, fn func(stoabs.ReadTx) error) error {
 	if h := k.ReadHook; h != nil {
 		h("")
 	}
+	if err := k.readStep(""); err != nil {
+		return err
+	}
 	if k.virtual {
 		k.vlock.RLock()
 		defer k.vlock.RUnlock()
@@ -432,6 +467,9 @@ func (k *KV) ReadShelf(ctx context.Context, shelfName string, fn func(stoabs.Rea
 	}
 	if h := k.ReadHook; h != nil {
 		h(shelfName)
+	}
+	if err := k.readStep(shelfName); err != nil {
+		return err
 	}
 	if k.virtual {
 		k.vlock.RLock()
